@@ -58,7 +58,7 @@ func init() {
 		},
 		Eval:   c06Eval,
 		Shrink: shrinkTokens,
-		Rule: "TOK(Σ_full,N) ∪ TOK(Σ_k,N_k) for six focused alphabets ∪ EDIT(k) of tree renderings ∪ FRAME(8 contexts x TOK(Σ_cmp/like/unary,4/5)), each x {no default field, default field D}; " +
+		Rule: "TOK(Σ_full,N) ∪ TOK(Σ_k,N_k) for six focused alphabets ∪ EDIT(k) of tree renderings ∪ FRAME(10 contexts x TOK(Σ_cmp/like/unary,4/5)), each x {no default field, default field D}; " +
 			"every accepted input's tree is checked against the token sequence by the derivation matcher; non-trivial = Parse accepted; distinct = distinct accepted trees",
 		Assumptions: []string{
 			"the matcher accepts any derivation in the (ambiguous) documented grammar and is lenient where it is silent: parenthesised distance/power, mixed [ } range brackets, = for :",
